@@ -46,8 +46,6 @@ theorem inverse_two_sided (n : Nat) (M : List Nat) (h : isSp n M = true) :
   obtain ⟨hwf, hsp⟩ := (isSp_iff n M).1 h
   exact ⟨matMul_inverse M hsp, inverse_matMul M hwf hsp⟩
 
-theorem inRange_iff (t : List (Nat × Nat)) : inRange t = true ↔ inRangeRev t.reverse = true := Iff.rfl
-
 /-- **every image is symplectic** -/
 theorem fromIntTuple_mem_Sp (t : List (Nat × Nat)) (h : inRange t = true) :
     isSp t.length (fromIntTuple t) = true := by
